@@ -188,7 +188,10 @@ def run_cases(mod, ctx, indices, soft_deadline=None):
 
     if hasattr(mod, "setup"):
         mod.setup(ctx)
-    pinned = getattr(mod, "PINNED", [])
+    pinned = list(getattr(mod, "PINNED", []))
+    if ctx.tier == "thorough":
+        # realistic-data cases (the two shipped datasets) run in the thorough tier like pinned cases
+        pinned += list(getattr(mod, "DATASET_CASES", []))
     for i in indices:
         if soft_deadline is not None and time.time() > soft_deadline:
             ctx.count("stopped_by_soft_deadline")
@@ -290,7 +293,7 @@ def shard_main(argv):
     os.environ["VERIF_TIER"] = tier
     mod = prop_module(pid)
     ctx = Ctx(pid, tier, seed, shard, nshards)
-    npinned = len(getattr(mod, "PINNED", []))
+    npinned = len(getattr(mod, "PINNED", [])) + (len(getattr(mod, "DATASET_CASES", [])) if tier == "thorough" else 0)
     idx = [-(j + 1) for j in range(npinned) if j % nshards == shard]
     idx += list(range(shard, ncases, nshards))
     run_cases(mod, ctx, idx, soft_deadline=time.time() + soft_s)
@@ -462,6 +465,12 @@ def finish(mod, pid, tier, seed, plan, results, dead, wall, extra=None):
         reasons.append("no oracle evaluations")
 
     rule = getattr(mod, "RULE", "")
+    if tier == "thorough" and getattr(mod, "DATASET_CASES", None):
+        rule += (" Thorough tier additionally drives the two datasets shipped with the repository (INTEL SE(2), parking-garage SE(3); read with the independent tokenizer, "
+                 "quaternions normalised, sub-graphs where a dense reference solve is needed, augmented with synthetic landmarks observed through rotated offsets and with "
+                 "cross-coupled information) through the same oracles (%d dataset cases)." % len(mod.DATASET_CASES))
+    if tier == "thorough" and hasattr(mod, "extra_stage"):
+        rule += " Thorough tier also runs the repository's own test-suite as a workload with this property's monitors attached (pytest plugin vf.pytest_plugin)."
     cov = {
         "evaluations": int(evaluations),
         "distinct_nontrivial": int(len(fps)),
